@@ -413,6 +413,18 @@ theorem legacy_recovers_only_depth3_regular (commitOf : Nat → Ident → Switch
   · cases hr
   · cases hr
 
+/-- Non-vacuity: a depth-4 identifier with hardened / maximal components round-trips through the
+path, the serialized path and the message under both switch modes; a depth-5 identifier does not
+round-trip through the message (it comes back with depth 4). -/
+example :
+    let id := deriveKeyId 4 (2^32 - 1) (2^31) (2^31 - 1) 1
+    IdWF id ∧ id.toPath.depth ≤ 4 ∧ id.toPath.toIdentifier = id ∧
+    parseMessage (proofMessage id .none) = some (id, .none) ∧
+    parseMessage (proofMessage id .regular) = some (id, .regular) ∧
+    legacyParseMessage (legacyProofMessage id .regular) = some (deriveKeyId 3 (2^32 - 1) (2^31) (2^31 - 1) 1, .regular) ∧
+    parseMessage (proofMessage (deriveKeyId 5 1 2 3 4) .regular) = some (deriveKeyId 4 1 2 3 4, .regular) := by
+  refine ⟨toIdentifier_WF _, ?_, ?_, ?_, ?_, ?_, ?_⟩ <;> decide
+
 /-! ## create / rewind, given the opaque contracts -/
 
 theorem commit_ok {K : Type} {kd : KeyDeriv K} {amount : Nat} {id : Ident} {sw : Switch} {c : Opening}
@@ -491,16 +503,6 @@ theorem rewind_other_seed {K P : Type} (kd : KeyDeriv K) (cr : Crypto P) (b b' :
   simp only at hv
   subst hv
   simp only [proofRewind, cr.rewind_other _ _ _ _ _ _ hn]
-
-/-- The contracts of `Crypto` are satisfiable: a toy instance (proof = the data in clear). -/
-def toyCrypto : Crypto (Nat × Nat × Nat × Bytes) where
-  bulletProof := fun v k rn _ m => (v, k, rn, m)
-  verify := fun c p => c.value == p.1 && c.blind == p.2.1
-  rewind := fun c nonce p =>
-    if nonce = p.2.2.1 ∧ c.value = p.1 ∧ c.blind = p.2.1 then some (p.1, p.2.2.2) else none
-  verify_honest := by intros; simp
-  rewind_same := by intros; simp
-  rewind_other := by intro v k rn rn' pn m h; simp [h]
 
 /-- Non-vacuity of `rewind_recovers`: the free keychain, depth 4, hardened and maximal components,
 amount 2^64−1, switch None; and of the legacy statement at depth 3. -/
